@@ -12,15 +12,23 @@ Theorem C03_rejected_unchanged : forall is_name cid_of tx_hash vm cfg bno s t s'
 Proof. exact exec_tx_rejected_unchanged. Qed.
 Print Assumptions C03_rejected_unchanged.
 
-Theorem C03_fee_nonce_only_partial : forall is_name cid_of tx_hash vm cfg bno s t s',
+(** FeeNonceOnly, exact: the post-state is the pre-state with the sender entry := (balance - fee,
+    nonce := tx nonce) -- or, for fee delegation to a different account, sender entry := (nonce := tx
+    nonce) and contract entry := (balance - fee) -- BpReward += fee and one ERROR receipt; all other
+    accounts, staking records, names and contract storages are those of the pre-state *)
+Theorem C03_fee_nonce_only : forall is_name cid_of tx_hash vm cfg bno s t s',
   exec_tx is_name cid_of tx_hash vm cfg bno s t = (FeeNonceOnly, s') ->
-  rest_eq s s' /\
-  exists fee payer,
-    bp_reward s' = bp_reward s + fee /\ receipts s' = receipts s ++ [mk_receipt cfg t 2%N fee] /\
-    fee <= bal (acct_of s payer) /\
-    (forall id, id <> resolve is_name s (t_from t) -> id <> payer -> accts s' !! id = accts s !! id).
-Proof. exact exec_tx_fee_nonce_only_partial. Qed.
-Print Assumptions C03_fee_nonce_only_partial.
+  let sid := resolve is_name s (t_from t) in
+  let rid := receiver_id is_name cid_of s t in
+  exists fee,
+    (fee <= bal (acct_of s sid) /\
+     s' = finish cfg (with_accts s (<[sid := reset_entry (acct_of s sid) (Some fee) (Some (t_nonce t))]> (accts s))) t 2%N fee)
+    \/
+    (t_kind t = KFeeDeleg /\ rid <> sid /\ fee <= bal (acct_of s rid) /\
+     s' = finish cfg (with_accts s (<[rid := reset_entry (acct_of s rid) (Some fee) None]>
+                                     (<[sid := reset_entry (acct_of s sid) None (Some (t_nonce t))]> (accts s)))) t 2%N fee).
+Proof. exact exec_tx_fee_nonce_only. Qed.
+Print Assumptions C03_fee_nonce_only.
 
 (** per outcome: what happened to value, BpReward and the receipts *)
 Theorem C03_exec_tx_trichotomy : forall is_name cid_of tx_hash vm cfg,
